@@ -14,8 +14,10 @@
 //!   invert ::= (Invert None | (Some [(Pair kind u)] value)) | (Panic "..")     invert_then_canonicalize
 //!
 //! `canon answers` — one case per line:
-//!   case   ::= (Case "<program>" "<goal>" k cpu_secs)
-//!   result ::= (Res (Query nuniverses [(Pair kind u) ...] value) [<ans> ...]) | (GoalError "..") | (ProgramError "..")
+//!   case   ::= (Case "<program>" ["<goal>" ...] k cpu_secs)
+//!   result ::= (Res [<goalres> ...]) | (ProgramError "..")
+//!   goalres::= (G (Query nuniverses [(Pair kind u) ...] value) [<ans> ...]) | (GoalError "..") | (GoalDied "why")
+//! One forked child per program (CPU limit per goal, 64 MB stack); a child that dies is replaced.
 //!   ans    ::= (Ans "<source>" [(Pair kind u) ...] [subst terms ...] <applied>) | (NoAns "<source>" <why>)
 //!   applied::= (Applied tm) | (Panic "..")          Substitution::apply(query value) under catch_unwind
 //! The query value (an `InEnvironment<Goal>`) is rendered as `Node HImplies [HList env; goal]`.
@@ -205,6 +207,11 @@ const RLIMIT_CPU: i32 = 0;
 const RLIMIT_AS: i32 = 9;
 const CLOCK_PROCESS_CPUTIME_ID: i32 = 2;
 
+fn set_cpu_limit(secs_from_now: u64) {
+    let l = RLimit { cur: cpu_seconds_used() + secs_from_now, max: u64::MAX };
+    unsafe { setrlimit(RLIMIT_CPU, &l) };
+}
+
 fn cpu_seconds_used() -> u64 {
     let mut ts = [0i64; 2];
     unsafe { clock_gettime(CLOCK_PROCESS_CPUTIME_ID, &mut ts) };
@@ -223,8 +230,7 @@ fn in_child(cpu: u64, f: impl FnOnce(&mut dyn FnMut(String))) -> (Vec<String>, O
         let wfd = fds[1];
         let lim = RLimit { cur: 4096 * 1024 * 1024, max: 4096 * 1024 * 1024 };
         unsafe { setrlimit(RLIMIT_AS, &lim) };
-        let l = RLimit { cur: cpu_seconds_used() + cpu, max: u64::MAX };
-        unsafe { setrlimit(RLIMIT_CPU, &l) };
+        set_cpu_limit(cpu);
         struct AssertSend<T>(T);
         unsafe impl<T> Send for AssertSend<T> {}
         let f = AssertSend(f);
@@ -294,38 +300,20 @@ fn solution_sx(source: &str, q: &UCanonical<InEnvironment<Goal<ChalkIr>>>, sol: 
     }
 }
 
-fn run_answers(case: &Sexp) -> Result<Sexp, String> {
-    if case.head() != Some("Case") || case.args().len() != 4 { return Err("expected (Case program goal k cpu)".into()); }
-    let a = case.args();
-    let text = a[0].as_str()?.to_string();
-    let goal_text = a[1].as_str()?.to_string();
-    let k = a[2].as_num()? as usize;
-    let cpu = a[3].as_num()?;
-    // lowering in a child first (parser / lowering may panic or overflow: C24)
-    let (lines, end) = in_child(cpu, |emit| {
-        let r = guarded(|| {
-            let db = ChalkDatabase::with(&text, SolverChoice::slg_default());
-            match db.program_ir() {
-                Err(e) => Sexp::app("ProgramError", vec![Sexp::string(&format!("{}", e))]),
-                Ok(p) => match chalk_parse::parse_goal(&goal_text) {
-                    Err(e) => Sexp::app("GoalError", vec![Sexp::string(&format!("parse: {}", e))]),
-                    Ok(g) => match lower_goal(&*g, &*p) {
-                        Err(e) => Sexp::app("GoalError", vec![Sexp::string(&format!("lower: {}", e))]),
-                        Ok(_) => Sexp::atom("Fine"),
-                    },
-                },
-            }
-        });
-        emit(match r { Ok(s) => s.to_string(), Err(m) => Sexp::app("ProgramError", vec![Sexp::string(&format!("panic: {}", m))]).to_string() });
-    });
-    match lines.first() {
-        None => return Ok(Sexp::app("ProgramError", vec![Sexp::string(&format!("lowering died: {:?}", end))])),
-        Some(l) => { let h = parse(l)?; if h.head() != Some("Fine") { return Ok(h); } }
-    }
-    let db = ChalkDatabase::with(&text, SolverChoice::slg_default());
-    let program = db.program_ir().map_err(|e| format!("{}", e))?;
-    let goal = lower_goal(&*chalk_parse::parse_goal(&goal_text).map_err(|e| format!("{}", e))?, &*program).map_err(|e| format!("{}", e))?;
-    let q = tls::set_current_program(&program, || goal.into_peeled_goal(I));
+/// Runs in the forked child: lowers and peels the goal, runs the three solver configurations.
+fn solve_goal(db: &ChalkDatabase, program: &std::sync::Arc<chalk_integration::program::Program>, goal_text: &str, k: usize) -> Sexp {
+    let goal = match guarded(|| match chalk_parse::parse_goal(goal_text) {
+        Err(e) => Err(format!("parse: {}", e)),
+        Ok(g) => lower_goal(&*g, &**program).map_err(|e| format!("lower: {}", e)),
+    }) {
+        Ok(Ok(g)) => g,
+        Ok(Err(e)) => return Sexp::app("GoalError", vec![Sexp::string(&e)]),
+        Err(m) => return Sexp::app("GoalError", vec![Sexp::string(&format!("panic: {}", m))]),
+    };
+    let q = match guarded(|| tls::set_current_program(program, || goal.into_peeled_goal(I))) {
+        Ok(q) => q,
+        Err(m) => return Sexp::app("GoalError", vec![Sexp::string(&format!("peel panic: {}", m))]),
+    };
     let query = Sexp::app("Query", vec![Sexp::num(q.universes as u64), binders_sx(&q.canonical.binders), env_goal_sx(&q.canonical.value)]);
     let mut answers = vec![];
     let runs: Vec<(&str, SolverChoice, bool)> = vec![
@@ -334,33 +322,93 @@ fn run_answers(case: &Sexp) -> Result<Sexp, String> {
         ("slg-multi", SolverChoice::slg_default(), true),
     ];
     for (name, choice, multi) in runs {
+        let mut solver = choice.into_solver();
+        let mut out: Vec<Sexp> = vec![];
+        let r = guarded(|| {
+            if !multi {
+                let sol = solver.solve(db, &q);
+                out.push(solution_sx(name, &q, sol));
+            } else {
+                let mut n = 0usize;
+                solver.solve_multiple(db, &q, &mut |res, _next| {
+                    n += 1;
+                    out.push(match res {
+                        SubstitutionResult::Definite(c) => answer_sx("slg-multi:Definite", &q, &c.binders, &c.value.subst),
+                        SubstitutionResult::Ambiguous(c) => answer_sx("slg-multi:Ambiguous", &q, &c.binders, &c.value.subst),
+                        SubstitutionResult::Floundered => no_ans("slg-multi", Sexp::atom("Floundered")),
+                    });
+                    n < k
+                });
+            }
+        });
+        answers.extend(out);
+        if let Err(m) = r { answers.push(no_ans(name, panic_sexp(&m))); }
+    }
+    Sexp::app("G", vec![query, Sexp::List(answers)])
+}
+
+fn run_answers(case: &Sexp) -> Result<Sexp, String> {
+    if case.head() != Some("Case") || case.args().len() != 4 { return Err("expected (Case program [goals] k cpu)".into()); }
+    let a = case.args();
+    let text = a[0].as_str()?.to_string();
+    let goals: Vec<String> = a[1].as_list()?.iter().map(|g| g.as_str().map(|s| s.to_string())).collect::<Result<_, _>>()?;
+    let k = a[2].as_num()? as usize;
+    let cpu = a[3].as_num()?;
+    // the programs of this family come from fixed templates: lowering runs in-process under catch_unwind
+    let loaded = guarded(|| {
+        let db = ChalkDatabase::with(&text, SolverChoice::slg_default());
+        let p = db.program_ir();
+        (db, p)
+    });
+    let (db, program) = match loaded {
+        Ok((db, Ok(p))) => (db, p),
+        Ok((_, Err(e))) => return Ok(Sexp::app("ProgramError", vec![Sexp::string(&format!("{}", e))])),
+        Err(m) => return Ok(Sexp::app("ProgramError", vec![Sexp::string(&format!("panic: {}", m))])),
+    };
+    // one child per program; when it dies (CPU limit, stack overflow, abort) the goal it was working on
+    // is reported as (GoalDied why) and a new child continues with the next goal
+    let n = goals.len();
+    let mut res: Vec<Sexp> = Vec::with_capacity(n);
+    while res.len() < n {
+        let start = res.len();
         let (lines, end) = in_child(cpu, |emit| {
             tls::set_current_program(&program, || {
-                let mut solver = choice.into_solver();
-                let r = guarded(|| {
-                    if !multi {
-                        emit(solution_sx(name, &q, solver.solve(&db, &q)).to_string());
-                    } else {
-                        let mut n = 0usize;
-                        solver.solve_multiple(&db, &q, &mut |res, _next| {
-                            n += 1;
-                            let s = match res {
-                                SubstitutionResult::Definite(c) => answer_sx("slg-multi:Definite", &q, &c.binders, &c.value.subst),
-                                SubstitutionResult::Ambiguous(c) => answer_sx("slg-multi:Ambiguous", &q, &c.binders, &c.value.subst),
-                                SubstitutionResult::Floundered => no_ans("slg-multi", Sexp::atom("Floundered")),
-                            };
-                            emit(s.to_string());
-                            n < k
-                        });
-                    }
-                });
-                if let Err(m) = r { emit(no_ans(name, panic_sexp(&m)).to_string()); }
+                for g in &goals[start..] {
+                    set_cpu_limit(cpu);
+                    emit(solve_goal(&db, &program, g, k).to_string());
+                }
             });
         });
-        for l in &lines { answers.push(parse(l)?); }
-        if let Some(e) = end { answers.push(no_ans(name, Sexp::app("Died", vec![Sexp::string(&e)]))); }
+        for l in &lines { if res.len() < n { res.push(parse(l).unwrap_or_else(|e| Sexp::app("GoalDied", vec![Sexp::string(&e)]))); } }
+        if res.len() < n {
+            res.push(Sexp::app("GoalDied", vec![Sexp::string(&end.unwrap_or_else(|| "child ended early".into()))]));
+        }
     }
-    Ok(Sexp::app("Res", vec![query, Sexp::List(answers)]))
+    Ok(Sexp::app("Res", vec![Sexp::List(res)]))
+}
+
+fn warm_up() {
+    // pay one-time lazy initialisations (lexer tables, tracing callsites ...) in the parent so
+    // that the forked children do not repeat them
+    let _ = guarded(|| {
+        let db = ChalkDatabase::with("struct WarmS<T> {} struct WarmZ {} trait WarmT {} impl WarmT for WarmZ {} impl<T> WarmT for WarmS<T> where T: WarmT {}", SolverChoice::slg_default());
+        if let Ok(p) = db.program_ir() {
+            for g in ["exists<A> { WarmS<A>: WarmT }", "forall<A> { if (A: WarmT) { not { WarmS<A>: WarmT } } }"] {
+                if let Ok(pg) = chalk_parse::parse_goal(g) {
+                    if let Ok(goal) = lower_goal(&*pg, &*p) {
+                        tls::set_current_program(&p, || {
+                            let q = goal.into_peeled_goal(I);
+                            for sc in [SolverChoice::slg_default(), SolverChoice::recursive_default()] {
+                                let mut solver = sc.into_solver();
+                                let _ = solver.solve(&db, &q);
+                                let _ = solver.solve_multiple(&db, &q, &mut |_, _| false);
+                            }
+                        });
+                    }
+                }
+            }
+        }
+    });
 }
 
 fn main() {
@@ -370,6 +418,7 @@ fn main() {
         return;
     }
     install_quiet_panic_hook();
+    warm_up();
     // read all input first: forked children must not share a half-consumed stdin buffer
     let mut input = String::new();
     let _ = std::io::stdin().lock().read_to_string(&mut input);
